@@ -126,8 +126,12 @@ def setup_config(
     if "current" in config:
         curr = config["current"]
 
-        # if cstep and steps are equal, we stop here.
-        if curr.get("cstep") == curr.get("restarted_from", -1):
+        # if the previous restart made no step and there are no steps left,
+        # we stop here (with a larger step count we continue).
+        if (
+            curr.get("cstep") == curr.get("restarted_from", -1)
+            and curr.get("cstep") >= config["simulation"]["steps"]
+        ):
             return None
 
         # set 'restarted_from'
